@@ -291,14 +291,18 @@ impl IntoSqlBuilder for Member {
                     })
                 }
                 MemberPrime::Call { call } => {
+                    // the parser stores the arguments last to first
+                    let mut args = call
+                        .node()
+                        .exprs
+                        .iter()
+                        .map(|a| a.node().into_sql_builder())
+                        .collect::<ToSqlResult<Vec<_>>>()?;
+                    args.reverse();
+
                     builder = Box::new(FunctionCallBuilder {
                         primary: builder,
-                        args: call
-                            .node()
-                            .exprs
-                            .iter()
-                            .map(|a| a.node().into_sql_builder())
-                            .collect::<ToSqlResult<Vec<_>>>()?,
+                        args,
                     });
                 }
                 MemberPrime::ArrayAccess { access } => {
